@@ -163,7 +163,11 @@ def scenario(case):
     encoding = case.get("encoding", "utf-8")
     if case.get("names"):
         src_tree = rename_tree(src_tree, case["names"])
-    rig = Rig(tree=SERVER_TREE if op in ("upload", "upload-seq") else None,
+    spy = backends.SpyControl()
+    if case.get("short_reads"):
+        # a backend may return fewer bytes than asked for before the end of the file ("read some data")
+        spy.read_cap = case["short_reads"]
+    rig = Rig(tree=SERVER_TREE if op in ("upload", "upload-seq") else None, spy=spy,
               server_kwargs={"block_size": 7, "encoding": encoding})
     w = rig.world
     a = w.aioftp
@@ -171,7 +175,12 @@ def scenario(case):
         rig.server.commands_mapping.pop("mlst")
         rig.server.commands_mapping.pop("mlsd")
     problems = []
-    client = a.Client(path_io_factory=a.MemoryPathIO, encoding=encoding)
+    cfactory = a.MemoryPathIO
+    if case.get("short_reads"):
+        cspy = backends.SpyControl()
+        cspy.read_cap = case["short_reads"]
+        cfactory = backends.make_spy(a.MemoryPathIO, cspy)
+    client = a.Client(path_io_factory=cfactory, encoding=encoding)
     payload = src_tree if kind == "dir" else src_tree
     try:
         if op == "upload-seq":
@@ -371,6 +380,15 @@ def build_items(tier):
                 cases.append({"op": op, "kind": kind, "tree": tree, "dest": dest, "write_into": False, "cwd": "/",
                               "block": 8192, "fallback": fallback, "encoding": "latin-1",
                               "names": {"a": "é", "b": "å b"}})
+    # backends that return short reads (legal for AbstractPathIO.read) on both sides
+    for kind, tree in sources:
+        if kind == "dir" and count_nested(tree) > 3:
+            continue
+        for cap in (1, 3):
+            for op in ("upload", "download"):
+                for block in (1, 8192):
+                    cases.append({"op": op, "kind": kind, "tree": tree, "dest": "x", "write_into": False, "cwd": "/",
+                                  "block": block, "fallback": False, "short_reads": cap})
     return [cases[i:i + 25] for i in range(0, len(cases), 25)], len(sources)
 
 
@@ -386,6 +404,7 @@ def run(tier, seed, t0):
     part = report.merge_all(report.pmap(work, items))
     bounds = {"sources": nsrc, "max_nodes": 4, "names": ["a", "b"], "destinations": DESTS, "write_into": [False, True],
               "remote_cwd": ["/", "/w"], "block_sizes": [1, 8192], "servers": ["MLSD", "LIST fallback"], "encodings": ["utf-8", "latin-1 with non-ASCII names (trees <= 3 nodes)"],
+              "short_reading_backends": "read() capped at 1 or 3 bytes on the client's and the server's backend (trees <= 3 nodes)",
               "ops": ["upload", "download", "list(recursive)", "remove",
                       "upload of the same relative destination from three working directories on one connection"]}
     return report.finish(
